@@ -757,6 +757,22 @@ func loadCap(ref int64) int64 {
 	return c
 }
 
+// tightLoadCap bounds a LOAD by the cost of the reference load of the same
+// bytes (fresh instance, alone, executed EARLIER in the same process, so that
+// any lazily built package-level table was paid for by the reference). Loads
+// have no warm/cold asymmetry in favour of the reference, and a load that runs
+// away typically allocates at every step: 50x the cost of a 10^5-key load is
+// gigabytes. 8x; the floor of 3 000 000 leaves room for work proportional to
+// what the instance held BEFORE (releasing or clearing old content), which the
+// reference does not pay.
+func tightLoadCap(ref int64) int64 {
+	c := ref * 8
+	if c < 3000000 {
+		c = 3000000
+	}
+	return c
+}
+
 // adaptToSync turns a generated non-sweep strategy into a sweep (3 runs out of
 // 4) when the solo profile of the scenario contains synchronising statements.
 // On a tree without synchronisation in its read paths (today's) it never fires.
